@@ -251,23 +251,35 @@ def oracle(sp, m, root, alphabet, depth, clauses, when):
                          '%s: in map %r the names %r are a handle and a sub-map at once' % (when, show(comps), both))
     if 'backlink' in clauses:
         where = slots(root)
+        later = []
         for comps, exp in model_paths(root):
-            if len(where.get(id(exp), ())) > 1 or getattr(exp, 'was_shared', False):
+            if len(where.get(id(exp), ())) > 1:
                 sp.cover('shared-map-backlink-skipped')
-                continue                # a map that has (had) two owners: the statement does not say what its
-                #                         .parent/.key should be (the owner that attached it last may be gone)
+                continue                # stored under two owners right now: .parent/.key are not prescribed
             holder = real_walk(m, comps[:-1])
             node = real_walk(m, comps)
             if holder is MISSING or node is MISSING:
                 continue                # a lookup failure, reported by the 'lookup' clauses
             if isinstance(exp, Node) and exp.obj is None:
                 sp.cover('implicit-map')
+            if getattr(exp, 'was_shared', False):
+                later.append((comps, holder, node))
+                continue
             sp.check(node.parent is holder, 'backlink-parent',
                      '%s: node at %r (%s) has parent %r, not the map containing it' % (
                          when, show(comps), 'implicit map' if isinstance(exp, Node) and exp.obj is None
                          else type(node).__name__, node.parent))
             sp.check(node.key == comps[-1], 'backlink-key',
                      '%s: node at %r has key %r' % (when, show(comps), node.key))
+        # last, because a known finding ends the path: nodes that have exactly ONE owner slot now but had two at
+        # some earlier point of the history (their back-link is unambiguous again)
+        for comps, holder, node in later:
+            sp.cover('backlink-checked-after-unaliasing')
+            sp.check(node.parent is holder and node.key == comps[-1], 'backlink-after-unaliasing',
+                     '%s: the map at %r is stored at exactly one place now (it had two owners earlier) but '
+                     'records parent %s, key %r' % (
+                         when, show(comps), 'ok' if node.parent is holder else repr(node.parent), node.key),
+                     was_shared=True)
 
 
 def slots(root):
@@ -579,7 +591,7 @@ _REINS_REQ = ['handle-read', 'deep-handle-read', 'map-over-handle', 'handle-over
               'reassign-same-handle', 'reassign-same-map',
               'reinsert-same-map-other-name', 'reinsert-map-same-map-other-name', 'clear-nonempty']
 
-_ALIAS_REQ = ['alias-insert', 'alias-insert-nonempty', 'alias-handle-read-through-shared-map',
+_ALIAS_REQ = ['backlink-checked-after-unaliasing', 'alias-insert', 'alias-insert-nonempty', 'alias-handle-read-through-shared-map',
               'alias-set-through-shared-map', 'shared-map-backlink-skipped', 'handle-read', 'deep-handle-read',
               'map-over-handle', 'handle-over-map', 'implicit-map', 'alias-clear-shared-map']
 _FLAV_REQ = ['flavour-falsy', 'flavour-empty', 'flavour-equal', 'handle-read', 'deep-handle-read', 'map-over-handle',
@@ -650,8 +662,10 @@ ASSUMPTIONS = [
     'it only ever compares identities',
     'aliasing entries (alias=True): a set may store a map that is already stored elsewhere in the tree under a '
     'second owner (never creating a cycle); get / [] / chained [] through both owners must agree with the model '
-    'after every operation; parent/key of a map with two owners and its detachment by clear() are not checked '
-    '(not fixed by the statement)',
+    'after every operation; parent/key of a map are not checked while it has two owners (not fixed by the '
+    'statement); once it is back to exactly one owner slot they are checked under the separate clause '
+    'backlink-after-unaliasing (known finding C11-backlink-after-unaliasing: the link still names the owner that '
+    'attached it last); detachment by clear() of children that ever had two owners is not checked',
     'every assigned value is a fresh object, or the very object already stored under exactly that name in that map '
     '(re-assignment in place), or (reinsert entries) an object stored earlier in the history that is '
     'stored nowhere when it is assigned again: displaced by a later assignment or dropped by clear(); an object is '
